@@ -10,24 +10,24 @@ open Afkak.Consumer Afkak.Monitor Afkak.Proofs.Consumer
     is issued (manual, count- and time-triggered, retried, from `shutdown()`), on every trace. -/
 theorem C03_commit_le_processed (cfg : Cfg) (script : List PEntry) (evs : List Ev) :
     C03.commitLeProcessedOk (trace cfg script evs) = true :=
-  accepts_trace _ _ cfg script evs (run_top cfg script evs).1.g1.clpOk
+  accepts_trace _ _ cfg script evs (run_g1 cfg script evs).clpOk
 
 /-- At most one (uncancelled) commit request is outstanding at any time, on every trace. -/
 theorem C03_one_in_flight (cfg : Cfg) (script : List PEntry) (evs : List Ev) :
     C03.oneInFlightOk (trace cfg script evs) = true :=
-  accepts_trace _ _ cfg script evs (run_top cfg script evs).1.g1.oifOk
+  accepts_trace _ _ cfg script evs (run_g1 cfg script evs).oifOk
 
 /-- `last_committed_offset` only ever takes a value the broker acknowledged (the offset of a commit
     request whose reply was a success) or reported (an OffsetFetchResponse), on every trace. -/
 theorem C03_committed_is_acked (cfg : Cfg) (script : List PEntry) (evs : List Ev) :
     C03.committedAckedOk (trace cfg script evs) = true :=
-  accepts_trace _ _ cfg script evs (run_top cfg script evs).1.ack.ackOk
+  accepts_trace _ _ cfg script evs (run_ack cfg script evs).ackOk
 
 /-- Started from the committed position `c ≥ 0`, the next FetchRequest the consumer issues is at
     `c + 1` (whatever else happens in between, short of a restart), on every trace. -/
 theorem C03_resume (cfg : Cfg) (script : List PEntry) (evs : List Ev) :
     C03.resumeOk (trace cfg script evs) = true :=
-  accepts_trace _ _ cfg script evs (run_top cfg script evs).1.res.resOk
+  accepts_trace _ _ cfg script evs (run_res cfg script evs).resOk
 
 /-! Non-vacuity: `start(OFFSET_COMMITTED)`, the coordinator reports offset 41, the consumer fetches at 42. -/
 example :
